@@ -112,6 +112,13 @@ impl XmlConverter {
                 )
                 .to_boxed());
             }
+            if name.is_none() && text.is_none() {
+                return Err(BuildError::new(
+                    "XML nodes must have either a name or a text field",
+                    ErrorType::TypeFail,
+                )
+                .to_boxed());
+            }
             if let Some(name) = name {
                 let mut start = XmlEvent::start_element(name);
                 if let Some(attrs) = attrs {
